@@ -649,6 +649,36 @@ def rule_dso_load_bias(ctx, R="C18/dso-load-bias"):
     ctx.check(okdyn, R, "dynamic=vaddr+bias", b.where(adds[0][0]) if adds else b.where(0), "dyn_addr = p_vaddr(PT_DYNAMIC).wrapping_add(bias)", "the dynamic section's address is not p_vaddr + bias")
 
 
+CPU_FIELDS = ("processor_architecture", "number_of_processors", "processor_level", "processor_revision", "cpu")
+CPU_FIELD_WRITERS = ("linux::dumper_cpu_info::x86_mips::write_cpu_information",)
+
+
+def rule_cpu_fields_owner(ctx, R="C18/sysinfo-owner"):
+    """the CPU fields of the system-info record (architecture, processor count, level, revision, vendor) describe THE MACHINE as
+    /proc/cpuinfo reports it (the formulas of C18/sysinfo): they are written only by write_cpu_information — nothing else in the crate
+    overwrites them afterwards with a value from another source (the dumper's own affinity mask, a constant, ...)"""
+    others = []
+    n = 0
+    for body in ctx.prog.bodies:
+        for bi, blk in enumerate(body.blocks):
+            if blk["cleanup"]:
+                continue
+            for si, st in enumerate(blk["stmts"]):
+                if st["k"] != "assign":
+                    continue
+                for pl in (st["p"], st["r"].get("p") if st["r"]["k"] == "ref" and st["r"].get("bk") == "mut" else None):
+                    if not pl:
+                        continue
+                    for e in pl["proj"]:
+                        if e["k"] == "field" and e.get("n") in CPU_FIELDS and norm(e.get("adt") or "").endswith("MINIDUMP_SYSTEM_INFO"):
+                            n += 1
+                            if body.short.split("::{closure")[0] not in CPU_FIELD_WRITERS:
+                                others.append("%s.%s in %s (%s)" % ("info", e["n"], body.short.split("::")[-2] + "::" + body.short.split("::")[-1], body.where(bi, si)))
+    ctx.floor(R, "stores to CPU fields of the system-info record", n, 4)
+    ctx.check(not others, R, "cpu-fields-written-once", None, "the CPU fields are written by write_cpu_information only",
+              "a CPU field of the system-info record is (over)written outside write_cpu_information: %s" % "; ".join(sorted(set(others))[:3]))
+
+
 def run(ctx):
     # link-map names, handle link targets and the OS version string go through the shared string helper (same instance as C16/string)
     from rules import c16
@@ -664,6 +694,7 @@ def run(ctx):
     rule_dso_extent(ctx)
     rule_dso_load_bias(ctx)
     rule_sysinfo(ctx)
+    rule_cpu_fields_owner(ctx)
     # the architecture is named also when the CPU details cannot be gathered: it is stored before anything in that step can fail and
     # the record the step filled is the one written (same rule instance as C11/partial-results-kept)
     from rules import c11
